@@ -199,6 +199,28 @@ func (s *sharedState) passObj(of *objFact, a ssa.Value, call ssa.Instruction, pa
 	}
 }
 
+// sharedReceiverFor: the interface value v is shared; can the shared part of it be a value of callee f's receiver type?
+// v may merge a shared value of one concrete type (a package-level default) with a private value of another.
+func (s *sharedState) sharedReceiverFor(v ssa.Value, f *ssa.Function, depth int) bool {
+	if depth > 6 || f.Signature.Recv() == nil {
+		return true
+	}
+	switch x := v.(type) {
+	case *ssa.Phi:
+		for _, e := range x.Edges {
+			if s.shared[e] && s.sharedReceiverFor(e, f, depth+1) {
+				return true
+			}
+		}
+		return false
+	case *ssa.MakeInterface:
+		return types.Identical(x.X.Type(), f.Signature.Recv().Type())
+	case *ssa.ChangeInterface:
+		return s.sharedReceiverFor(x.X, f, depth+1)
+	}
+	return true
+}
+
 func (s *sharedState) run() {
 	for s.changed {
 		s.changed = false
@@ -313,7 +335,11 @@ func (s *sharedState) run() {
 						if f := cc.StaticCallee(); f != nil {
 							callees = []*ssa.Function{f}
 						} else if cc.IsInvoke() {
-							callees = calleesOf(s.p, x)
+							// the call graph's (VTA) targets for this very site; class-hierarchy dispatch only when it knows none
+							callees = Callees(s.p.VTA(), x)
+							if len(callees) == 0 {
+								callees = calleesOf(s.p, x)
+							}
 						} else if mc, ok := cc.Value.(*ssa.MakeClosure); ok {
 							if f, ok := mc.Fn.(*ssa.Function); ok {
 								callees = []*ssa.Function{f}
@@ -327,7 +353,7 @@ func (s *sharedState) run() {
 							off := 0
 							if cc.IsInvoke() {
 								off = 1
-								if s.shared[cc.Value] && len(f.Params) > 0 {
+								if s.shared[cc.Value] && len(f.Params) > 0 && s.sharedReceiverFor(cc.Value, f, 0) {
 									s.mark(f.Params[0], s.why[cc.Value])
 								}
 							}
